@@ -1,6 +1,9 @@
 use super::{
     Namespace,
-    structures::{RustType, complex::ComplexProps, element::ElementProps, simple::SimpleProps},
+    structures::{
+        RustType, complex::ComplexProps, element::{ElementProps, ElementType}, simple::SimpleProps,
+        writer::is_same_type, xml_name_to_rust_name,
+    },
 };
 use crate::{
     error::{WriterError, WriterResult},
@@ -78,6 +81,21 @@ where
     fn write_xml(&self, writer: &mut W) -> WriterResult<()> {
         if self.rust_type == RustType::Ignore {
             return Ok(());
+        }
+
+        // an element whose type has the same name in *another* namespace still needs its alias; the type writer
+        // does not know the namespace of the element and would skip it as an alias of itself
+        if let RustType::Element(props) = &self.rust_type {
+            if let ElementType::RustType(rust_type) = &props.element_type {
+                let rust_name = xml_name_to_rust_name(&props.xml_name);
+                let own_module = self.in_namespace.as_ref().map(|ns| ns.rust_mod_name.as_str());
+                if rust_type.to_string().split(':').next_back() == Some(rust_name.as_str())
+                    && !is_same_type(rust_type, &rust_name, own_module)
+                {
+                    writeln!(writer, "pub type {rust_name} = {rust_type};")?;
+                    return Ok(());
+                }
+            }
         }
 
         self.rust_type.write_xml(writer)
